@@ -91,7 +91,11 @@ def run(ctx, cell):
     key = "C15:%s:%s" % (op, kind)
     if op in OPS_FIND:
         return run_find(ctx, cell, key)
-    base = list("abcdefgh"[:n]) if kind == "str" else [100 + i for i in range(n)]
+    if kind == "list" and op in ("delete_at", "insert_at", "assign_at", "index"):
+        # lists with (possibly) equal elements: positions, not values, identify what changes
+        base = [ctx.int("e%d" % q, 0, 1) for q in range(n)]
+    else:
+        base = list("abcdefgh"[:n]) if kind == "str" else [100 + i for i in range(n)]
     s = mk(kind, base)
     i = ctx.int("i", -R, R)
     env = {"s": s, "i": vint(i)}
